@@ -542,6 +542,7 @@ func init() {
 			{Name: "escape-window", N: c04EscN, Run: c04Esc, Exhaustive: true},
 			{Name: "padded-numbers", N: c04PaddedN, Run: c04Padded, Exhaustive: true},
 			{Name: "identifier-neighbours", N: c04NeighN, Run: c04Neigh, Exhaustive: true},
+			{Name: "control-characters-in-literals", N: c04CtlN, Run: c04Ctl, Exhaustive: true},
 		},
 	})
 }
@@ -763,6 +764,29 @@ func c04Neigh(c *Ctx, idx int) {
 		texts = append(texts, "foo."+"b"+r+"r", "$"+r, "{k"+r+": a}", "foo["+r+"]", "a"+r+"b(a)", "foo "+r, "_"+r, "a1"+r)
 	}
 	for _, t := range texts {
+		pr := c.CheckGrammar(t, feats)
+		if pr.Status != ref.ParseGap {
+			c.Nontrivial(t)
+		}
+	}
+}
+
+// ---- raw control characters inside string tokens
+//
+// JSON forbids every raw character U+0000..U+001F inside a string (not only the five that have short
+// escapes); a JSON literal whose string body holds one is outside the grammar - as a bare string,
+// inside an array or object, as a key, with or without white space around the value, next to
+// escapes or not.  (Raw strings and quoted identifiers with such characters are not judged.)
+func c04CtlN(c *Ctx) int { return 0x21 }
+
+func c04Ctl(c *Ctx, idx int) {
+	r := string(rune(idx))
+	if idx == 0x20 {
+		r = "\x7f"
+	}
+	feats := map[string]string{"family": "control-characters-in-literals", "code_point": fmt.Sprintf("U+%04X", []rune(r)[0])}
+	for _, t := range []string{"`\"a" + r + "b\"`", "`\"" + r + "\"`", "`\"" + r + r + "x\"`", "` \"a" + r + "b\" `", "`[\"a" + r + "b\"]`", "`{\"k\": \"" + r + "\"}`", "`{\"a" + r + "\": 1}`", "`\"a" + r + "b\\n\"`", "`\"\\t" + r + "\"`",
+		"items[?name == `\"a" + r + "b\"`].id | [0]", "`\"abc\"" + r + "`", "`" + r + "\"abc\"`", "`[1," + r + "2]`", "`\"a\"`" + r, "a" + r + "b", "'a" + r + "b'", "\"a" + r + "b\"", "a ||" + r + "b"} {
 		pr := c.CheckGrammar(t, feats)
 		if pr.Status != ref.ParseGap {
 			c.Nontrivial(t)
